@@ -48,8 +48,13 @@ def _work(i):
         res = {"status": "unknown", "paths": [{"trail": [], "goals": [], "unsupported": str(e)}], "n_certs": 0, "wall_s": round(time.time() - t, 3),
                "notes": [str(e)], "inputs": []}
     except Exception as e:          # noqa: BLE001 -- an exception escaping the harness is a checker error, not a verdict
-        res = {"status": "checker-error", "paths": [], "n_certs": 0, "wall_s": round(time.time() - t, 3),
-               "notes": ["%s: %s" % (type(e).__name__, e), traceback.format_exc()[-1500:]], "inputs": []}
+        if "TimeoutError: obligation exceeded its time budget" in str(e):
+            # the alarm fired inside a ctypes call-back of the solver API, which re-raises it as ctypes.ArgumentError
+            res = {"status": "unknown", "paths": [{"trail": [], "goals": [], "unsupported": str(e)}], "n_certs": 0, "wall_s": round(time.time() - t, 3),
+                   "notes": ["obligation exceeded its time budget of %d s" % _BUDGET], "inputs": []}
+        else:
+            res = {"status": "checker-error", "paths": [], "n_certs": 0, "wall_s": round(time.time() - t, 3),
+                   "notes": ["%s: %s" % (type(e).__name__, e), traceback.format_exc()[-1500:]], "inputs": []}
     finally:
         signal.alarm(0)
     res["id"] = ob.id
